@@ -300,6 +300,26 @@ def compare_at_masters(vf_bytes, masters, optimize, stats, cff, extra_texts=()):
                     if abs(got - want) > 0.51: return "metric %s (%s.%s) at master %s %r: built %.2f, master %r" % (tag, table, attr, name, user, got, want)
     return None
 
+def check_axis_maps(vf_bytes, doc):
+    """user-space coordinates reach the normalised coordinates the designspace's axis maps specify: at every map node and at the axis
+    minimum / default / maximum, normalise through fvar and avar of the BUILT font and compare with the design-space normalisation"""
+    from fontTools.ttLib import TTFont
+    from fontTools.varLib.models import normalizeValue, piecewiseLinearMap
+    vf = TTFont(io.BytesIO(vf_bytes))
+    fv = {a.axisTag: (a.minValue, a.defaultValue, a.maxValue) for a in vf["fvar"].axes}
+    for a in doc.axes:
+        if not getattr(a, "map", None) or a.tag not in fv: continue
+        dtrip = (a.map_forward(a.minimum), a.map_forward(a.default), a.map_forward(a.maximum))
+        if not (dtrip[0] <= dtrip[1] <= dtrip[2]): continue
+        for u in sorted(set([a.minimum, a.default, a.maximum] + [u_ for u_, _ in a.map if a.minimum <= u_ <= a.maximum])):
+            n_ = normalizeValue(u, fv[a.tag])
+            seg = vf["avar"].segments.get(a.tag) if "avar" in vf else None
+            if seg: n_ = piecewiseLinearMap(n_, seg)
+            want = normalizeValue(a.map_forward(u), dtrip)
+            if abs(n_ - want) > 3.0 / 16384:
+                return "axis %s: user value %r normalises to %.5f through the built fvar/avar, the axis map says %.5f (map %r)" % (a.tag, u, n_, want, a.map)
+    return None
+
 def sweeps(tier, rng):
     from fontTools import varLib
     from fontTools.ttLib import TTFont
@@ -320,7 +340,7 @@ def sweeps(tier, rng):
             except Exception as e:
                 import traceback
                 yield (("generated", i, str(desc)), "varLib.build raised %r\n%s" % (e, traceback.format_exc()[-800:])); continue
-            try: bad = compare_at_masters(vb, masters, optimize, stats, cff, desc["texts"])
+            try: bad = compare_at_masters(vb, masters, optimize, stats, cff, desc["texts"]) or check_axis_maps(vb, doc)
             except Exception as e:
                 import traceback
                 bad = "comparison raised %r %s" % (e, traceback.format_exc()[-600:])
